@@ -53,11 +53,18 @@ add("C11",
     "receives, reset_fitness on both) and of Archipelago/Island._do_evolution's age bookkeeping: the pairing is a matching with "
     "exactly n mod 2 islands sitting out, the multiset of individuals is conserved, equally sized islands keep their size, "
     "participants are all marked for re-evaluation and the others are untouched, evolve(n) adds exactly n to every age - for all "
-    "island counts, sizes and shuffle outcomes. Tied to the code by replaying the recorded np.random.shuffle outcomes of real "
-    "SerialArchipelago.evolve calls through the model (compared inside Coq).",
+    "island counts, sizes and shuffle outcomes. Parallel case: a model of ParallelArchipelago._get_migration_partner and the "
+    "theorem that for every legal shuffle the partners form a matching (partner of partner = self, at most one rank idle, only "
+    "for odd n, the one the serial pairing leaves out), and a transition system of the exchange phase (lookup+dump+buffered send, "
+    "receive) with theorems for every interleaving: no reachable state stuck, final layout = kept + partner's dump, no message "
+    "left, individuals and equal sizes conserved, participants re-flagged. Tied to the code by replaying the recorded np.random.shuffle outcomes of real "
+    "SerialArchipelago.evolve calls through the model (compared inside Coq) and by calling the real partner lookup for every rank "
+    "of every shuffle of up to 5 ranks with a stub communicator, and by replaying real _coordinate_migration_between_islands runs on "
+    "the mpi4py stand-in (recorded shuffle, dumps, send/receive order) through the transition system.",
     "Trusted: Coq kernel; np.random.shuffle permutes in place (the harness records the permutation); the harness. The islands' "
     "evolutionary algorithm is an abstract function in the age theorem and the identity in the correspondence runs. The parallel "
-    "archipelago's migration is covered under C12 (transition system), not here. Axiom-free.",
+    "archipelago runs on the deterministic mpi4py stand-in (real MPI progress semantics are not exercised; buffered sends are the "
+    "model's premise). Axiom-free.",
     "Rocq/Coq proof (counting argument over all shuffles) + tape-replay correspondence")
 
 add("C14",
@@ -218,11 +225,13 @@ add("C04",
 add("C05",
     "Coq theorems over a model of the generational pipeline (VarOr/VarAnd/AddRandomIndividuals flag handling, non-redundant "
     "evaluation possibly through local optimisation, the five generational_step variants, EaDiagnostics.update and the selections "
-    "as READERS of stored fitness, Island steps / fitness resets / best-individual and hall-of-fame reads), generic in genome and "
+    "as READERS of stored fitness, Island steps / fitness resets / regeneration / migration arrivals / best-individual and "
+    "hall-of-fame reads with the evaluate-first guard of fix F23, and archipelagos of any number of islands exchanging members), generic in genome and "
     "fitness types with variation and selection outcomes as arbitrary oracles: from any flag pattern no phase ever reads a missing or "
     "stale fitness and every flagged individual carries the fitness of its current genome, for every history. Tied to the code by "
     "replaying real generational steps of all five algorithms through the model (comparing the next generation's genome/stored "
-    "fitness/flag triples inside Coq), a class-level read monitor and an independent recomputation of every flagged fitness.",
+    "fitness/flag triples inside Coq), replaying every other island-level operation and both sides of real SerialArchipelago "
+    "migrations from the real state before them, a class-level read monitor and an independent recomputation of every flagged fitness.",
     "Trusted: Coq kernel; determinism of the fitness function; the harness's class-level instrumentation. The operators' own "
     "behaviour (children get the flag cleared) enters the model as the shape of the oracle (ONew has flag false) and is tied by the "
     "correspondence and by C04. AGraph/local-optimisation islands and serial archipelagos are monitored, not replayed through the "
